@@ -1199,13 +1199,37 @@ func (pf *pfunc) noOverflow(n *vn) bool {
 	switch b.Kind() {
 	case types.Int, types.Int64, types.UntypedInt:
 		return true
+	case types.Int32:
+		// stack depths and indexes: far from the type's limits (assumption A-len)
+		return !decodedOperand(n)
+	case types.Uint32:
+		// a 32-bit quantity decoded from untrusted bytes (binary.LittleEndian.Uint32) can be anything: 5 + l
+		// wraps for l near 2^32. Such a sum is exact only where the facts at hand show the result fits (pfacts:
+		// "arithmetic does not wrap"); 32-bit parameters and lengths (input numbers, counts) stay exact
+		return n.tok != token.SUB && !decodedOperand(n)
 	case types.Uint, types.Uint64, types.Uintptr:
 		// unsigned subtraction can wrap: exact only for ADD/MUL
 		return n.tok != token.SUB
-	case types.Uint8, types.Uint16, types.Int8, types.Int16, types.Uint32, types.Int32:
-		// 32-bit quantities are decoded from untrusted bytes (binary.LittleEndian.Uint32): 5 + l wraps for
-		// l near 2^32. Exact only where the facts at hand show the result fits (pfacts: "arithmetic does not wrap")
+	case types.Uint8, types.Uint16, types.Int8, types.Int16:
 		return false
+	}
+	return false
+}
+
+// decodedOperand: an operand of the operation is (a conversion of) a fixed-width integer decoded from bytes.
+func decodedOperand(n *vn) bool {
+	for _, a := range n.args {
+		x := a
+		for x != nil && x.op == "conv" && len(x.args) == 1 {
+			x = x.args[0]
+		}
+		if x != nil && x.op == "call" && (strings.Contains(x.name, "Endian.Uint") || strings.Contains(x.name, "Endian).Uint")) {
+			return true
+		}
+		// the same decode read through (b[0] | b[1]<<8 | ...)
+		if x != nil && x.op == "bin" && (x.tok == token.OR || x.tok == token.SHL) {
+			return true
+		}
 	}
 	return false
 }
